@@ -45,6 +45,8 @@ import contextlib
 import copy
 import csv
 import io
+import json
+import sys
 import itertools
 import os
 import shutil
@@ -249,6 +251,11 @@ def run_real(case):
         if len(case["ranks"]) > 1:
             argv.append("-M")
         with contextlib.redirect_stdout(io.StringIO()):
+            if case.get("pred_torch"):
+                # an analysis of a torch-profiler trace (the OTHER dialect, with its own kernel classifier) with the same
+                # compiler log earlier in this process: whatever it leaves behind must not reach the run under test
+                from props import c14
+                stage.e2e(["-c", lp], {"torch_rank0.json": c14.torch_trace(n=2, seed=len(case["ranks"]))})
             r = stage.e2e(argv, build_trace(case), want_files=["out_categories.csv"])
     finally:
         shutil.rmtree(tmp, ignore_errors=True)
@@ -622,7 +629,7 @@ def rand_case(ctx: Ctx, i):
     return {"soc": rng.choice([256, 512, 1024]), "core": rng.choice([512, 1024, 1024, 2048, 1100, 800]),
             "argv": ARGVS[i % len(ARGVS)], "dev_epochs": [rng.randrange(0, 1 << 32, 1024) for _ in range(R)],
             "log": log, "ranks": ranks, "host_late": rng.random() < 0.35, "decoy": rng.random() < 0.15,
-            "user_cat": rng.random() < 0.25, "two_streams": rng.random() < 0.2}
+            "user_cat": rng.random() < 0.25, "two_streams": rng.random() < 0.2, "pred_torch": i % 200 == 1 or rng.random() < 0.004}
 
 
 def gen_cases(ctx: Ctx):
@@ -634,8 +641,25 @@ def gen_cases(ctx: Ctx):
 
 # ---------------------------------------------------------------------------------------------
 
+def run_real_fresh(case):
+    """run_real in a FRESH interpreter: the torch-profiler predecessor of a `pred_torch` case must be the first
+    analysis of its process (whatever an earlier analysis of the same dialect left behind would mask it)"""
+    import pickle
+    import subprocess
+    code = ("import sys, os, json, pickle; sys.path.insert(0, %r); "
+            "sys.path.insert(0, os.path.join(os.environ.get('AIU_REPO', '/repo'), 'src')); from props import c11; "
+            "case = json.loads(sys.stdin.read()); res = c11.run_real(case); "
+            "sys.stdout.buffer.write(b'@@PICKLE@@' + pickle.dumps(res))" % os.path.dirname(os.path.dirname(os.path.abspath(__file__))))
+    p = subprocess.run([sys.executable, "-c", code], input=json.dumps(case).encode(), capture_output=True, timeout=600)
+    out = p.stdout
+    if b"@@PICKLE@@" not in out:
+        return {"err": f"failed:subprocess rc={p.returncode} {p.stderr.decode(errors='replace')[-300:]}", "slices": [],
+                "counters": {}, "rows": None, "perr": None}
+    return pickle.loads(out.split(b"@@PICKLE@@", 1)[1])
+
+
 def oracle_on_case(ctx: Ctx, case, verbose=False):
-    res = run_real(case)
+    res = run_real_fresh(case) if case.get("pred_torch") else run_real(case)
     if verbose:
         print("real:", {k: v for k, v in res.items() if k != "slices"})
         print("kernel slices:", [(s["name"], s["pid"], float(s["dur"]), None if s["pt"] is None else float(s["pt"])) for s in kernel_slices(res)])
